@@ -24,6 +24,7 @@ import TonVerif.Drv.BocEntry
 import TonVerif.Drv.TlbSrc
 import TonVerif.Drv.TlbSrcTx
 import TonVerif.Drv.TlbSrcBlk
+import TonVerif.Drv.LocateSrc
 
 open TonVerif TonVerif.Drv
 
@@ -47,7 +48,8 @@ def handlers : List (String → List String → Option String) := [
   BocEntry.handle?,
   TlbSrc.handle?,
   TlbSrcTx.handle?,
-  TlbSrcBlk.handle?
+  TlbSrcBlk.handle?,
+  LocateSrc.handle?
 ]
 
 def handle (op : String) (args : List String) : String :=
